@@ -50,12 +50,28 @@ inductive Rec where
 
 abbrev Store := List (Id × Rec)
 
+/-- The cookie-related arguments of `sessions.init` (tool configuration).  Names, paths and domains
+    are indices into tables of the harness; path `0` is the default `'/'`. -/
+structure CookieCfg where
+  name : Nat := 0
+  /-- `path` (a non-empty string) -/
+  path : Option Nat := none
+  /-- `request.headers.get(path_header)` when `path_header` is configured and the request carries a
+      non-empty header of that name -/
+  pathHeader : Option Nat := none
+  domain : Option Nat := none
+  secure : Bool := false
+  httponly : Bool := false
+  persistent : Bool := true
+  deriving DecidableEq, Repr, Inhabited
+
 structure Cfg where
   file : Bool
   timeout : Nat
   gen : Nat → Id
   /-- `true` = `Session.delete` as repaired in 8042c0e (forgets the request's copy). -/
   deleteForgets : Bool := true
+  cookie : CookieCfg := {}
 
 structure St where
   store : Store := []
@@ -91,6 +107,11 @@ structure Sess where
   loaded : Bool := false
   cookieExpired : Bool := false
   reads : List Data := []
+  /-- `Session.regenerated`: the application called `regenerate()` (the response cookie was then rebuilt
+      by `SessionTool.regenerate`, see the cookie layer below) -/
+  regenerated : Bool := false
+  /-- what `len(cherrypy.session)` returned, call by call (not session data: kept apart from `reads`) -/
+  lens : List Nat := []
   deriving Repr, Inhabited
 
 inductive Status where
@@ -154,6 +175,37 @@ def ensureLoaded (st : St) (s : Sess) : Option Sess :=
     | none => none
     | some d => some { s with data := d, loaded := true }
 
+/-- entries stored under key `k` (at most one) -/
+def dget (d : Data) (k : Key) : Data := d.filter fun p => decide (p.1 = k)
+
+/-- The rest of the dict interface (every method loads lazily, then works on `_data`).  The second
+    component of `Acc.apply` is what the call lets the handler observe, as a `Data`:
+    `get`/`__getitem__`: the entry (nothing = `None` / KeyError); `__contains__`, `__delitem__`:
+    `(k, 1)` for True / deleted, nothing for False / KeyError; `pop(k)` without default: the entry
+    (nothing = KeyError); `setdefault`: the entry now stored; `update`: nothing. -/
+inductive Acc where
+  | get (k : Key)
+  | contains (k : Key)
+  | setdefault (k : Key) (v : Val)
+  | update (kvs : List (Key × Val))
+  | popStrict (k : Key)
+  | delitem (k : Key)
+  deriving DecidableEq, Repr, Inhabited
+
+def Acc.apply : Acc → Data → Data × Data
+  | .get k, d => (d, dget d k)
+  | .contains k, d => (d, (dget d k).map fun p => (p.1, 1))
+  | .setdefault k v, d => if (dget d k).isEmpty then (dset d k v, [(k, v)]) else (d, dget d k)
+  | .update kvs, d => (kvs.foldl (fun d p => dset d p.1 p.2) d, [])
+  | .popStrict k, d => (ddel d k, dget d k)
+  | .delitem k, d => (ddel d k, (dget d k).map fun p => (p.1, 1))
+
+/-- can the call put data into the session? -/
+def Acc.writes : Acc → Bool
+  | .setdefault _ _ => true
+  | .update _ => true
+  | _ => false
+
 inductive HOp where
   | read
   | write (k : Key) (v : Val)
@@ -162,7 +214,20 @@ inductive HOp where
   | regenerate
   | delete
   | expire
+  /-- another method of the dict interface -/
+  | acc (a : Acc)
+  /-- `len(cherrypy.session)`: the number of stored sessions (`len(cache)` / session files); does
+      not load the session -/
+  | len
+  /-- the handler raises an unexpected exception here: 500, the `save` hook does not run -/
+  | raise
   deriving DecidableEq, Repr, Inhabited
+
+/-- can the statement put data into the session? -/
+def HOp.writes : HOp → Bool
+  | .write _ _ => true
+  | .acc a => a.writes
+  | _ => false
 
 /-- result of one handler statement -/
 inductive HRes where
@@ -204,11 +269,19 @@ def hop (cfg : Cfg) (st : St) (s : Sess) : HOp → HRes
     let st1 := { st with store := erase st.store s.id }
     match newId cfg st1 with
     | none => .fail .diverged st1 s
-    | some (i, st2) => .ok st2 { s with id := i, cookieExpired := false }
+    | some (i, st2) =>
+      -- `set_response_cookie` rewrites `expires` only "if timeout:"
+      .ok st2 { s with id := i, cookieExpired := s.cookieExpired && cfg.timeout == 0, regenerated := true }
   | .delete =>
     let st1 := { st with store := erase st.store s.id }
     if cfg.deleteForgets then .ok st1 { s with data := [], loaded := false } else .ok st1 s
   | .expire => .ok st { s with cookieExpired := true }
+  | .acc a =>
+    match ensureLoaded st s with
+    | none => .fail .err500 st s
+    | some s' => .ok st { s' with data := (a.apply s'.data).1, reads := s'.reads ++ [(a.apply s'.data).2] }
+  | .len => .ok st { s with lens := s.lens ++ [st.store.length] }
+  | .raise => .fail .err500 st s
 
 def runHops (cfg : Cfg) : St → Sess → List HOp → HRes
   | st, s, [] => .ok st s
@@ -229,6 +302,134 @@ def request (cfg : Cfg) (st : St) (c : Cookie) (hops : List HOp) : St × Resp :=
     match runHops cfg st0 s0 hops with
     | .ok st1 s1 => (saveSess cfg st1 s1, ⟨.ok, some s1.id, s1.cookieExpired, s1.reads⟩)
     | .fail e st1 s1 => (st1, ⟨e, some s1.id, s1.cookieExpired, s1.reads⟩)
+
+/-- `request`, also handing out the final `Session` object (for the cookie layer and `lens`). -/
+def requestS (cfg : Cfg) (st : St) (c : Cookie) (hops : List HOp) : St × Resp × Option Sess :=
+  match initSess cfg st c with
+  | .error e => (st, ⟨e, none, false, []⟩, none)
+  | .ok (s0, st0) =>
+    match runHops cfg st0 s0 hops with
+    | .ok st1 s1 => (saveSess cfg st1 s1, ⟨.ok, some s1.id, s1.cookieExpired, s1.reads⟩, some s1)
+    | .fail e st1 s1 => (st1, ⟨e, some s1.id, s1.cookieExpired, s1.reads⟩, some s1)
+
+/-! ### which cookie is presented
+
+  `sessions.init`: `if name in request.cookie: id = request.cookie[name].value`.  `request.cookie` is
+  an `http.cookies.SimpleCookie` loaded from the Cookie header: of several pairs with the same name
+  the LAST one is kept; names are compared exactly.  A pair is `(name index, what its value names)`;
+  the value is what `http.cookies` makes of the text (unquoting included) - that part is the
+  library's and is taken from it by the harness. -/
+
+def presentedOf (name : Nat) : List (Nat × Cookie) → Cookie
+  | [] => .none
+  | (n, c) :: rest =>
+    match presentedOf name rest with
+    | .none => if n = name then c else .none
+    | later => later
+
+/-! ### the response cookie
+
+  `set_response_cookie` as called by `init` (all arguments; `timeout` only when `persistent`) and by
+  `SessionTool.regenerate` (only `path, path_header, name, timeout, domain, secure`: `persistent` is NOT
+  passed on - transcribed as it is).  The id observer's `cookie[name] = id` keeps the existing morsel
+  (`SimpleCookie.__setitem__` re-uses it), so what `init` had set stays unless `regenerate` sets it
+  again: `httponly` survives although it is not passed on, `max-age`/`expires` are set from the
+  timeout even for `persistent = False`; `expire()` puts `expires` one year into the past and drops
+  `max-age`.
+  Times are in seconds since tick 0 (one tick = one minute). -/
+
+structure CookieOut where
+  name : Nat
+  path : Nat
+  maxAge : Option Nat
+  expires : Option Int
+  domain : Option Nat
+  secure : Bool
+  httponly : Bool
+  deriving DecidableEq, Repr, Inhabited
+
+def oneYear : Nat := 60 * 60 * 24 * 365
+
+/-- `path or request.headers.get(path_header) or '/'` -/
+def cookiePath (c : CookieCfg) : Nat :=
+  match c.path with
+  | some p => p
+  | none => match c.pathHeader with
+    | some p => p
+    | none => 0
+
+/-- `set_response_cookie(path, path_header, name, timeout, domain, secure, httponly)`; `timeout`
+    `none` or `0` ("if timeout:") gives a cookie without `max-age` / `expires`. -/
+def setResponseCookie (c : CookieCfg) (timeout : Option Nat) (httponly : Bool) (now : Nat) : CookieOut :=
+  let t := timeout.getD 0
+  { name := c.name, path := cookiePath c,
+    maxAge := if t = 0 then none else some (t * 60),
+    expires := if t = 0 then none else some ((now * 60 + t * 60 : Nat) : Int),
+    domain := c.domain, secure := c.secure, httponly := httponly }
+
+/-- the cookie `init` sets -/
+def initCookie (cfg : Cfg) (now : Nat) : CookieOut :=
+  setResponseCookie cfg.cookie (if cfg.cookie.persistent then some cfg.timeout else none)
+    cfg.cookie.httponly now
+
+/-- the cookie after `SessionTool.regenerate()` -/
+def regenCookie (cfg : Cfg) (now : Nat) : CookieOut :=
+  setResponseCookie cfg.cookie (some cfg.timeout) cfg.cookie.httponly now
+
+/-- `expire()` -/
+def expireCookie (c : CookieOut) (now : Nat) : CookieOut :=
+  { c with expires := some ((now * 60 : Nat) - (oneYear : Nat) : Int), maxAge := none }
+
+/-- attributes of the session cookie in the response, given the final `Session` object -/
+def finalCookie (cfg : Cfg) (now : Nat) (s : Sess) : CookieOut :=
+  let base := if s.regenerated then regenCookie cfg now else initCookie cfg now
+  if s.cookieExpired then expireCookie base now else base
+
+/-! ### the cleanup Monitor: started once per session class
+
+  tail of `Session.load`: `if self.clean_freq and not cls.clean_thread:` start a
+  `Monitor(engine, self.clean_up, self.clean_freq * 60)` and store it in the CLASS.  State: which
+  classes have a Monitor, and with which period (seconds). -/
+
+abbrev Monitors := List (Nat × Nat)
+
+def monLookup : Monitors → Nat → Option Nat
+  | [], _ => none
+  | (c, f) :: rest, k => if c = k then some f else monLookup rest k
+
+/-- one `load()` of an instance of class `cls` configured with `clean_freq`; the flag says a Monitor
+    was started by this call -/
+def loadMonitor (m : Monitors) (cls cleanFreq : Nat) : Monitors × Bool :=
+  if cleanFreq ≠ 0 ∧ (monLookup m cls).isNone then ((cls, cleanFreq * 60) :: m, true) else (m, false)
+
+def loadsMonitor : Monitors → List (Nat × Nat) → Monitors × Nat
+  | m, [] => (m, 0)
+  | m, (cls, f) :: rest =>
+    let r := loadMonitor m cls f
+    let rr := loadsMonitor r.1 rest
+    (rr.1, (if r.2 then 1 else 0) + rr.2)
+
+/-! ### two overlapping requests
+
+  Request A is inside its handler (after `preA`) while request B runs from start to end; then A goes
+  on with `postA` and is saved.  Feasible in the real code whenever B's session differs from A's
+  (otherwise B waits for A's lock: C13).  `none` for A's final session = A ended before B started. -/
+def overlap (cfg : Cfg) (st : St) (cA : Cookie) (preA postA : List HOp) (cB : Cookie) (hopsB : List HOp) :
+    St × Resp × Resp :=
+  match initSess cfg st cA with
+  | .error e =>
+    let rb := request cfg st cB hopsB
+    (rb.1, ⟨e, none, false, []⟩, rb.2)
+  | .ok (s0, st0) =>
+    match runHops cfg st0 s0 preA with
+    | .fail e st1 s1 =>
+      let rb := request cfg st1 cB hopsB
+      (rb.1, ⟨e, some s1.id, s1.cookieExpired, s1.reads⟩, rb.2)
+    | .ok st1 s1 =>
+      let rb := request cfg st1 cB hopsB
+      match runHops cfg rb.1 s1 postA with
+      | .ok st2 s2 => (saveSess cfg st2 s2, ⟨.ok, some s2.id, s2.cookieExpired, s2.reads⟩, rb.2)
+      | .fail e st2 s2 => (st2, ⟨e, some s2.id, s2.cookieExpired, s2.reads⟩, rb.2)
 
 /-! ### sweeps -/
 
@@ -287,6 +488,33 @@ def run (cfg : Cfg) : St → List Op → St × List Out
 
 /-- final state of a history -/
 def runSt (cfg : Cfg) (st : St) (ops : List Op) : St := (run cfg st ops).1
+
+/-! ### a self-expiring store (MemcachedSession)
+
+  `MemcachedSession` keeps `(data, expiration_time)` under the id with the expiration time also
+  handed to memcached (`cache.set(id, value, unix time)`): the server stops returning the entry once
+  `expiration_time ≤ now`.  There is no sweep (`clean_up` is the inherited no-op) and `_exists`,
+  `_load`, `_save`, `_delete` are `get` / `get` / `set` / `delete`, exactly the RAM backend's dict
+  operations.  So a memcached history is a RAM history in which the store is swept
+  (`sweepRam`: `expiry ≤ now`) before every operation: `memStep`, `memRun_eq_run` in the proofs. -/
+
+def memView (st : St) : St := { st with store := sweepRam st.now st.store }
+
+def memStep (cfg : Cfg) (st : St) (op : Op) : St × Out := step cfg (memView st) op
+
+def memRun (cfg : Cfg) : St → List Op → St × List Out
+  | st, [] => (st, [])
+  | st, o :: os =>
+    let r := memStep cfg st o
+    let rr := memRun cfg r.1 os
+    (rr.1, r.2 :: rr.2)
+
+def memRunSt (cfg : Cfg) (st : St) (ops : List Op) : St := (memRun cfg st ops).1
+
+/-- the same history with the implicit expiry made explicit -/
+def withSweeps : List Op → List Op
+  | [] => []
+  | o :: os => .sweep :: o :: withSweeps os
 
 /-! ### pickle as a parameter -/
 
